@@ -257,7 +257,8 @@ pub fn scenario_cases(seed: u64, k: usize) -> Vec<Case> {
 }
 
 pub fn run(seed: u64, n: usize, sink: &mut Sink) {
-    for k in 0..n {
+    let ks: Vec<usize> = (0..crate::c05::corpus().len()).map(|i| crate::c05::CORPUS_BASE + i).chain(0..n).collect();
+    for k in ks {
         match run_child("c04child", seed, k, CHILD_TIMEOUT_S) {
             Ok(cases) => for v in &cases { sink.put(case_from_json(v)); },
             Err(why) => {
